@@ -305,7 +305,49 @@ def r07_5(chk):
     chk.floor("R07.5", 1, "the undo shortcut")
 
 
+def _reads_after_unbind(fn):
+    """loads of a name bound by `except ... as NAME` that occur after that handler with no assignment to NAME in
+    between (Python deletes the name when the handler ends)"""
+    out = []
+    for h in ast.walk(fn):
+        if not isinstance(h, ast.ExceptHandler) or not h.name:
+            continue
+        end = h.end_lineno
+        stores = sorted(n.lineno for n in ast.walk(fn) if isinstance(n, ast.Name) and n.id == h.name and isinstance(n.ctx, ast.Store) and n.lineno > end)
+        for n in ast.walk(fn):
+            if isinstance(n, ast.Name) and n.id == h.name and isinstance(n.ctx, ast.Load) and n.lineno > end and not any(s_ <= n.lineno for s_ in stores):
+                out.append((h, n))
+    return out
+
+
+def r07_6(chk):
+    chk.rule("R07.6", "no name bound by `except ... as NAME` is read after its handler in the recalculation package: Python unbinds it when the handler ends, so the read raises UnboundLocalError exactly on the failure path -- in Calculator.tracing_update that replaced the CalculationInterupted the caller (Calculator.change, R07.4) relies on to restore its state")
+    n = 0
+    hits = 0
+    for m in chk.repo.modules_under("recalculation") if hasattr(chk.repo, "modules_under") else [chk.repo.module(r) for r in ("recalculation/calculation.py", "recalculation/scope.py", "recalculation/definition.py", "recalculation/setting.py")]:
+        for q, fn in m.all_functions():
+            hs = [h for h in ast.walk(fn) if isinstance(h, ast.ExceptHandler) and h.name]
+            if not hs:
+                continue
+            n += 1
+            bad = _reads_after_unbind(fn)
+            seen = set()
+            for h, x in bad:
+                if (h.name, q) in seen:
+                    continue
+                seen.add((h.name, q))
+                hits += 1
+                chk.violation("R07.6", key(m, q, f"`{h.name}` read after its handler"), m.loc(x), f"`{h.name}` is bound by `except ... as {h.name}` (line {h.lineno}) and read at line {x.lineno}, after the handler has ended and unbound it: the failure path raises UnboundLocalError instead of what the code intends")
+            if not bad:
+                chk.ok("R07.6", key(m, q, "except-as names stay inside their handlers"), m.loc(fn), f"{len(hs)} handler(s)")
+    probe = ast.parse("def f():\n    e = None\n    try:\n        g()\n    except ValueError as e:\n        pass\n    if e:\n        raise e\n").body[0]
+    if not _reads_after_unbind(probe):
+        raise AnalysisError("R07.6 self-probe failed")
+    chk.floor("R07.6", 3, "functions with named handlers in the recalculation package")
+
+
 def run(chk):
+    r07_6(chk)
     r07_5(chk)
     r07_1(chk)
     r07_2(chk)
